@@ -276,7 +276,19 @@ func (a *AMF) HandleUplink(b []byte) [][]byte {
 	if class != want[0].(string) || proc != want[1].(int64) {
 		a.violate("uplink/class-or-procedure-code/"+name, "%s sent as %s with procedure code %d", name, class, proc)
 	}
+	// what was sent must be THE encoding of what it decodes to (a peer with a stricter decoder than this one would refuse
+	// anything else), and no IE may occur twice
+	if re, err := a.C.Encode("NGAPPDU", refper.PDUTag, tree); err != nil || !bytes.Equal(re, b) {
+		a.violate("uplink/not-the-canonical-encoding/"+name, "%s was sent as %x; its value encodes as %x (%v)", name, b, re, err)
+	}
 	l := ies(body)
+	seenIE := map[int64]bool{}
+	for _, ie := range l {
+		if seenIE[ie.id] {
+			a.violate(fmt.Sprintf("uplink/IE-repeated/%s/%d", name, ie.id), "%s carries IE %d more than once", name, ie.id)
+		}
+		seenIE[ie.id] = true
+	}
 	for _, mc := range mandatory[name] {
 		ie := findIE(l, mc[0])
 		if ie == nil {
